@@ -285,7 +285,9 @@ func FieldShapes(t reflect.Type, exact bool) []string {
 	case t == EpPtrT:
 		s := []string{}
 		for i := 0; i < EpT.NumField(); i++ {
-			s = append(s, "ep:"+EpT.Field(i).Name)
+			if EpT.Field(i).IsExported() {
+				s = append(s, "ep:"+EpT.Field(i).Name)
+			}
 		}
 		return append(s, "ep-all", "ep-obj")
 	case t.Kind() == reflect.Uint:
@@ -368,7 +370,9 @@ func (g *Gen) SetShape(fv reflect.Value, t reflect.Type, shape string) {
 		switch {
 		case shape == "ep-all":
 			for i := 0; i < ev.NumField(); i++ {
-				ev.Field(i).Set(reflect.ValueOf(g.IRI()))
+				if ev.Field(i).CanSet() {
+					ev.Field(i).Set(reflect.ValueOf(g.IRI()))
+				}
 			}
 		case shape == "ep-obj":
 			e.SharedInbox = g.ItemShape("obj:OrderedCollection")
@@ -431,6 +435,9 @@ func (g *Gen) Struct(k StructKind, depth int, needID bool) any {
 	t := v.Type()
 	for i := 0; i < t.NumField(); i++ {
 		f := t.Field(i)
+		if !f.IsExported() {
+			continue
+		}
 		switch f.Name {
 		case "ID":
 			if needID || g.R.Float64() < 0.8 {
@@ -504,7 +511,7 @@ func (g *Gen) Fill(fv reflect.Value, t reflect.Type, depth int) {
 		ev := reflect.ValueOf(e).Elem()
 		any := false
 		for i := 0; i < ev.NumField(); i++ {
-			if g.R.Intn(2) == 0 {
+			if g.R.Intn(2) == 0 && ev.Field(i).CanSet() {
 				ev.Field(i).Set(reflect.ValueOf(g.IRI()))
 				any = true
 			}
@@ -688,8 +695,11 @@ func deepCopyV(v reflect.Value) reflect.Value {
 			return v
 		}
 		n := reflect.New(v.Type()).Elem()
+		n.Set(v) // unexported fields are copied shallowly
 		for i := 0; i < v.NumField(); i++ {
-			n.Field(i).Set(deepCopyV(v.Field(i)))
+			if v.Type().Field(i).IsExported() {
+				n.Field(i).Set(deepCopyV(v.Field(i)))
+			}
 		}
 		return n
 	case reflect.Slice:
